@@ -6,15 +6,19 @@ CONFIG = dict(
              "the curve mathematics is DIFFERENTIAL, not a theorem: harness/c14 runs cipher.NewPubKey, NewSecKey, PubKeyFromSecKey, "
              "SignHash, VerifyPubKeySignedHash, VerifySignatureRecoverPubKey, PubKeyFromSig, ECDH, DeterministicKeyPairIterator, "
              "GenerateDeterministicKeyPairsSeed, secp256k1.Secp256k1Hash, UncompressPubkey and the lower-level Signature.Sign "
-             "(explicit nonce), Signature.Verify, BaseMultiply, Multiply, and every output is compared byte-for-byte (and error "
+             "(explicit nonce), Signature.Verify, BaseMultiply, Multiply, XY.AddXY and the field layer (Negate/SetAdd/Mul/Inv/Normalize "
+             "on structured values), and every output is compared byte-for-byte (and error "
              "kind for error kind) with an independent executable textbook implementation written in Lean over Nat (affine "
              "chord-tangent law, double-and-add, extended Euclid, sqrt = c^((p+1)/4)) plus the Lean SHA-256; for SignHash the "
              "random nonce is read back from the signature (k = (z+rd)/s or its negation) and the signature must be exactly "
              "textbook ECDSA's for that nonce. Theorems (Lean 4) are about that textbook specification: curve_consts, "
              "G_on_curve, order_G (n*G = infinity by kernel evaluation), seckey_valid_iff, pubkey_valid_iff, parsePub_onCurve "
              "(every accepted key is an on-curve point; off-curve, x>=p, bad prefix are rejected, never a fault), "
-             "compress/decompress and ECDSA verify_sign / recover_sign / ecdh_comm in the abstract prime-order group "
-             "(see notes/status/C14.md for the exact list), detKeySeq_prefix / detKeySeq_append (the key sequence is a pure unfold).",
+             "compress_decompress (hypothesis: the field prime is prime), ECDSA verify_sign / recover_sign / recover_of_verify / "
+             "ecdh_comm in the abstract prime-order group, detKeySeq_prefix / detKeySeq_append (the key sequence is a pure "
+             "unfold). Three defects were found by this differential run and repaired (x >= p panic; parity of an "
+             "un-normalised square root; Field.Normalize dropping a carry - wrong group arithmetic on valid points with a "
+             "tiny y); see notes/status/C14.md.",
         note="Level: proof for the specification-level statements; differential for the implementation. That the secp256k1 point "
              "set with the chord-tangent law is a group of prime order n (p, n prime; associativity) is assumed, not proved. "
              "Trusted: Lean kernel, Sky/Hash (validated against Go in C15/C16), the harness and its math/big generator library.",
@@ -22,7 +26,7 @@ CONFIG = dict(
     ),
     translators=[],
     props_files=["Sky/Props/C14.lean"],
-    model_files=["Sky/C14/Spec.lean", "Sky/Crypto/Secp256k1.lean", "Sky/C14/Drv.lean"],
+    model_files=["Sky/C14/Spec.lean", "Sky/C14/Lemmas.lean", "Sky/Crypto/Secp256k1.lean", "Sky/C14/Drv.lean", "Sky/C10/ECDSA.lean"],
     min_ops={"quick": 700, "thorough": 8000},
     trusted_base=[
         "Lean 4.33.0 kernel; axioms allowed: propext, Classical.choice, Quot.sound (audited by #print axioms)",
@@ -31,12 +35,14 @@ CONFIG = dict(
         "Sky/Hash SHA-256 (compared with Go in ./check C15)",
     ],
     assumptions=[
-        "the secp256k1 points with the chord-tangent law form a group of prime order n (primality of p and n, associativity) - assumed",
+        "the secp256k1 points with the chord-tangent law form a group of prime order n (primality of p and n, associativity) - assumed; compress_decompress takes Nat.Prime P as an explicit hypothesis",
         "PubKeyFromSecKey on an out-of-range key panics by documented precondition ('always ensure seckey is valid'); the model records the panic",
         "signature well-formedness in VerifyPubKeySignedHash is the C10 rule s <= n/2, recid < 4",
     ],
     rule="edge scalars {0,1,2,n-1,n,n+1,p-1,p,2^256-1,n/2,lambda,a1b2,b1,a2,bit-run patterns} x every key/scalar entry point; public "
-         "keys valid/off-curve/x>=p/bad prefix/wrong length; signatures built by the generator's own curve with 12 structured "
+         "keys valid/off-curve/x>=p/bad prefix/wrong length/valid with extreme ordinate (|y| tiny, y next to p) or tiny abscissa; "
+         "field values {tiny, p-tiny, 2^256-tiny, 2^32+977+-1, 2^255, limb boundaries} through Negate/SetAdd/Mul/MulInt/Inv/Normalize; "
+         "point additions incl. P+P and P+(-P); signatures built by the generator's own curve with 12 structured "
          "faults each (negated s, recid variants, r/s out of range, bit flips, message+n, message 0, other key, other parity); "
          "ECDH on valid and invalid pairs; deterministic sequences from seeds of 1..100 bytes; distinct = distinct (op,result) lines",
 )
